@@ -62,8 +62,24 @@ def run(tier):
     S.validate([], vtcheck.PUB_BINARY, 0, n_pairs)
     import resolvercheck
     resolvercheck.run(S, tier)
-    return finish(S, tier, ['match_type_of_operands / put_symbol / use_function on real expressions: only the relations they consult are decided here'])
+    # argument / parameter pairs of a call (E510-E513): function_calls::use_function as one call
+    import argcheck
+    argcheck.run(S, tier)
+    return finish(S, tier, ['put_symbol and the typer code that applies the relations to real expressions: only the relations they consult, '
+                            'match_type_of_operands and use_function (one call, <= 3/5 parameters) are decided here'])
 
 
 def replay_file(path):
+    import json
+    r = json.load(open(path))
+    req = (r.get('native_vs_encoding') or {}).get('request') or ''
+    if req.startswith('call '):
+        import argcheck
+        got = argcheck.native([req])[0]
+        log('native call-eval [%s] -> [%s]   [recorded: %s]' % (req, got, r['native_vs_encoding'].get('answer')))
+        log('statement violated when recorded: %s' % r.get('statement'))
+        if got == r['native_vs_encoding'].get('answer'):
+            log('VIOLATION property=%s replay=%s' % (PROP, path))
+            return 1
+        return 0
     return vtcheck.replay_file(PROP, path)
